@@ -154,13 +154,72 @@ theorem setInfo_outputs' {st st' : St} {i : Nat} {f : Info → Info} (h : st.set
   obtain ⟨_, _, e⟩ := setInfo_eq h
   subst e; rfl
 
+theorem setInfo_other {st st' : St} {i j : Nat} {f : Info → Info} (h : st.setInfo i f = some st') (hj : j ≠ i) :
+    st'.segs[j]? = st.segs[j]? := by
+  obtain ⟨_, _, e⟩ := setInfo_eq h
+  subst e
+  simp only
+  rw [List.getElem?_set_ne (Ne.symm hj)]
+
+theorem reduceIncoming_other (pt : Pt) : ∀ (l : List Nat) (st st' : St), reduceIncoming pt l st = some st' →
+    ∀ j, j ∉ l → st'.segs[j]? = st.segs[j]?
+  | [], st, st', h, _, _ => by simp only [reduceIncoming] at h; cases h; rfl
+  | [_], st, st', h, _, _ => by simp only [reduceIncoming] at h; cases h
+  | first :: second :: rest, st, st', h, j, hj => by
+    simp only [reduceIncoming] at h
+    have hjf : j ≠ first := fun e => hj (by simp [e])
+    have hjr : j ∉ rest := fun e => hj (by simp [e])
+    osplit h
+    osplit h
+    rename_i fc st1 h1
+    obtain ⟨_, g1, _, _⟩ := takeChain_sub h1
+    osplit h
+    rename_i sc st2 h2
+    obtain ⟨_, g2, _, _⟩ := takeChain_sub h2
+    osplit h
+    · osplit h
+      rename_i st3 h3
+      have g3 := setInfo_other h3 hjf
+      osplit h
+      rename_i fhc st4 h4
+      obtain ⟨_, g4, _, _⟩ := takeChain_sub h4
+      osplit h
+      rename_i shc st5 h5
+      obtain ⟨_, g5, _, _⟩ := takeChain_sub h5
+      osplit h
+      have := reduceIncoming_other pt rest _ _ h j hjr
+      rw [this]
+      show st5.segs[j]? = st.segs[j]?
+      rw [g5, g4, g3, g2, g1]
+    · osplit h
+      have := reduceIncoming_other pt rest _ _ h j hjr
+      rw [this]
+      show st2.segs[j]? = st.segs[j]?
+      rw [g2, g1]
+
+theorem startOutgoing_other (pt : Pt) : ∀ (l : List Nat) (st st' : St), startOutgoing pt l st = some st' →
+    ∀ j, j ∉ l → st'.segs[j]? = st.segs[j]?
+  | [], st, st', h, _, _ => by simp only [startOutgoing] at h; cases h; rfl
+  | [_], st, st', h, _, _ => by simp only [startOutgoing] at h; cases h
+  | first :: second :: rest, st, st', h, j, hj => by
+    simp only [startOutgoing] at h
+    have hjf : j ≠ first := fun e => hj (by simp [e])
+    have hjs : j ≠ second := fun e => hj (by simp [e])
+    have hjr : j ∉ rest := fun e => hj (by simp [e])
+    osplit h
+    osplit h
+    rename_i st1 e1
+    osplit h
+    rename_i st2 e2
+    rw [startOutgoing_other pt rest _ _ h j hjr, setInfo_other e2 hjs, setInfo_other e1 hjf]
+
 theorem cw_congr {pt : Pt} {st st' : St} (h : CW pt st) (hc : ∀ k, chainAt st' k = chainAt st k) : CW pt st' := by
   intro k c hk; rw [hc] at hk; exact h k c hk
 
 theorem tieUp_spec {pt : Pt} {bot : Option Nat} {br : Bool} {out : List Nat} {st st' : St}
     {ic : Option Nat × Option Nat} {n : Nat}
     (ho : OutOk pt st out) (hcw : CW pt st) (hcbn : CBn pt n st) (hic : IcOk pt n st ic)
-    (hhelper : ∀ b bi, bot = some b → st.infoOf b = some bi → bi.helperChain.getD bi.chainIdx < n)
+    (hhelper : ic.1 = none → ∀ b bi, bot = some b → st.infoOf b = some bi → bi.helperChain.getD bi.chainIdx < n)
     (h : tieUp pt bot br out st ic = some st') : CW pt st' ∧ st'.outputs = st.outputs := by
   unfold tieUp at h
   split at h
@@ -178,7 +237,7 @@ theorem tieUp_spec {pt : Pt} {bot : Option Nat} {br : Bool} {out : List Nat} {st
       osplit h
       rename_i c hc
       have hca : chainAt st (bi.helperChain.getD bi.chainIdx) = some c := chainAt_eq.2 hc
-      have hidx := hhelper b bi rfl hbi
+      have hidx := hhelper rfl b bi rfl hbi
       obtain ⟨s1, s2, s3⟩ := hcw _ c hca
       have hbody := hcbn _ hidx c hca
       osplit h
